@@ -77,6 +77,39 @@ def run(ck):
                          {"class": None, "case": l[:3000], "implementation": got[:300], "driver_flags": ck.impl_flags, "replay": "echo '<case>' | harness/drv.cpp built with the flags above against /repo"})
             break
     dist["allocation-failure-inside-the-operation"] = len(fl)
+    # ONE process, ONE file on disk (same path, same inode, unchanged), first the right key, then wrong keys: a verdict remembered
+    # for "this file" must not outlive the key it was reached with (path-based driver ops verp / decp inside a history)
+    import os
+    hl, hwant = [], {}
+    for j, (c, f) in enumerate(small[:8 if big else 4]):
+        pth = os.path.join(ck.scratch, "same_%d.wenc" % j)
+        open(pth, "wb").write(f)
+        ops, exp = [["verp", str(c.T), c.key.hex(), pth]], ["OK -"]
+        if j % 2:
+            ops.append(["decp", str(c.T), c.key.hex(), pth, pth + ".out0"])
+            exp.append("OK -")
+        for b in sorted(set([0, 63, 64, 127] + [r.randrange(128) for _ in range(6)])):
+            k2 = bytearray(c.key); k2[b // 8] ^= 1 << (b % 8)
+            ops.append(["verp", str(c.T), bytes(k2).hex(), pth])
+            exp.append("FAIL")
+            ops.append(["decp", str(c.T), bytes(k2).hex(), pth, pth + ".out%d" % b])
+            exp.append("FAIL")
+        hl.append("sq%d hist %s" % (j, ";".join(",".join(o) for o in ops)))
+        hwant["sq%d" % j] = (ops, exp, pth)
+    ho = wv.run_lines([exe], hl, env=dict(env, WV_TIMEOUT_MS="60000"))
+    for cid, (ops, exp, pth) in hwant.items():
+        parts = ho.get(cid, "(no output)").split(" ; ")
+        for q, e in enumerate(exp):
+            ck.cov["evaluations"] += 1
+            g = parts[q].split(" | ")[0] if q < len(parts) else "(missing)"
+            outp = ops[q][4] if ops[q][0] == "decp" else None
+            wrote = outp is not None and e == "FAIL" and os.path.exists(outp) and os.path.getsize(outp) > 0
+            if g != e or wrote:
+                ck.violation("operation %d of a sequence on ONE unchanged file in one process: %s (%s with %s key)" % (q, "plaintext written after a rejection" if g == e else "got '%s', expected '%s'" % (g[:20], e), ops[q][0], "the right" if e.startswith("OK") else "a WRONG"),
+                             {"class": None, "history": [" ".join(o) for o in ops], "position": q, "implementation": g, "expected": e, "driver_flags": ck.impl_flags,
+                              "replay": "write the file, then echo 'x hist <ops joined by ; with , between fields>' | harness/drv.cpp built with the flags above against /repo"})
+                break
+    dist["sequence-on-one-unchanged-file"] = len(hl)
     ck.cov["distinct_nontrivial"] = len(distinct)
     ck.cov["files"] = len(files)
     ck.cov["disagreements_model_vs_impl"] = corr
